@@ -176,9 +176,12 @@ def history(first, k):
     sx.reach("history")
 
 
-def wait_heartbeat(deliver):
+def wait_heartbeat(deliver, prior=0):
     rig = Rig()
     NmtError = sx.mod("canopen.nmt").NmtError
+    if prior:
+        # an earlier, unsolicited heartbeat (a stale "received" flag must not satisfy the wait)
+        rig.inject(0x700 + NODE, sx.mkbytes([sx.fresh_byte("hb0")]))
     b = sx.fresh_byte("hb")
     sx.assume(sx.any_([(b & 0x7F) == x for x in STATES]))
 
@@ -200,10 +203,12 @@ def wait_heartbeat(deliver):
     sx.reach("wait-hb")
 
 
-def wait_bootup(pattern):
+def wait_bootup(pattern, prior=0):
     """pattern: per wake-up 'b' boot-up byte, 'h' another heartbeat, '-' nothing"""
     rig = Rig()
     NmtError = sx.mod("canopen.nmt").NmtError
+    if prior:
+        rig.inject(0x700 + NODE, sx.mkbytes([0]))      # an earlier boot-up message must not count
     pending = list(pattern)
 
     def hook(kind, obj):
@@ -242,9 +247,11 @@ def jobs(tier):
         for first in KINDS:
             out.append(dict(func="history", params=dict(first=first, k=k), weight=10 ** k))
     for d in (0, 1):
-        out.append(dict(func="wait_heartbeat", params=dict(deliver=d)))
+        for prior in (0, 1):
+            out.append(dict(func="wait_heartbeat", params=dict(deliver=d, prior=prior)))
     for p in ([], ["b"], ["h", "b"], ["h"], ["h", "h", "b"], ["-"]):
-        out.append(dict(func="wait_bootup", params=dict(pattern=p)))
+        for prior in (0, 1):
+            out.append(dict(func="wait_bootup", params=dict(pattern=p, prior=prior)))
     return out
 
 
